@@ -109,6 +109,64 @@ func c18Layouts(p *core.Prog, r *core.Report) {
 		})
 		r.Check(ok, "C18-R2", fname(f), "form[k] = append(form[k], v)", p.Pos(f.Pos()), "each decoded pair is appended to the values of its key", "repeated header values overwrite each other")
 	}
+	// repeated HTTP headers: the deferred pair count is the number of pairs
+	// written (one per value, not one per name): a counter that starts at 0 and
+	// is advanced by one exactly where a pair is written
+	if f := mustFunc(p, r, "http", "", "writeHeaders"); f != nil {
+		ok, how := false, "no deferred count update found"
+		for _, u := range core.CallsIn(f, "typed.Uint16Ref.Update") {
+			a := core.CallArgs(u)
+			if len(a) != 2 {
+				continue
+			}
+			seen := map[ssa.Value]bool{}
+			addBlocks := map[*ssa.BasicBlock]bool{}
+			bad := ""
+			var walk func(v ssa.Value)
+			walk = func(v ssa.Value) {
+				if seen[v] {
+					return
+				}
+				seen[v] = true
+				switch x := v.(type) {
+				case *ssa.Phi:
+					for _, e := range x.Edges {
+						walk(e)
+					}
+				case *ssa.Const:
+					if k, isK := core.ConstInt(x); !isK || k != 0 {
+						bad = "the count starts at " + desc(x)
+					}
+				case *ssa.BinOp:
+					if k, isK := core.ConstInt(x.Y); x.Op == token.ADD && isK && k == 1 {
+						addBlocks[x.Block()] = true
+						walk(x.X)
+					} else {
+						bad = "the count is computed as " + desc(x)
+					}
+				default:
+					bad = "the count is " + desc(v) + ", not a counter of written pairs"
+				}
+			}
+			walk(a[1])
+			writeBlocks := map[*ssa.BasicBlock]bool{}
+			for _, w := range core.CallsIn(f, "typed.WriteBuffer.WriteLen16String") {
+				writeBlocks[w.Block()] = true
+			}
+			for b := range writeBlocks {
+				if !addBlocks[b] && bad == "" {
+					bad = "a pair is written without advancing the count"
+				}
+			}
+			for b := range addBlocks {
+				if !writeBlocks[b] && bad == "" {
+					bad = "the count is advanced where no pair is written"
+				}
+			}
+			ok, how = bad == "" && len(addBlocks) > 0, "the deferred header count is not the number of pairs written ("+bad+"): a multi-valued header makes the reader stop early or run past the pairs"
+		}
+		r.Check(ok, "C18-R2", fname(f), "deferred count = number of pairs written", p.Pos(f.Pos()), "counter from 0, +1 per written pair", how)
+	}
 }
 
 func c18Iterator(p *core.Prog, r *core.Report) {
